@@ -22,16 +22,33 @@ CTL_TRUST = [
 ]
 
 PROPS = {
+    "C04": {
+        "modules": ["CambrianModel.Props.C04"],
+        "theorems": ["Cambrian.Props.C04_abort_request", "Cambrian.Props.C04_no_start_after_abort",
+                     "Cambrian.Props.C04_nothing_after_return", "Cambrian.Props.C04_broadcast_once",
+                     "Cambrian.Props.C04_target", "Cambrian.Props.C04_drain", "Cambrian.Props.C04_returns_best"],
+        "correspondences": ["ctl"],
+        "trusted": CTL_TRUST,
+        "assumptions": ["float laws used: none", "'delivered' = taken by the controller loop; a request racing with a completion may be honoured one completion later"],
+    },
+    "C06": {
+        "modules": ["CambrianModel.Props.C06"],
+        "theorems": ["Cambrian.Props.C06_first", "Cambrian.Props.C06_after_abort_keeps_error"],
+        "correspondences": ["ctl"],
+        "trusted": CTL_TRUST,
+        "assumptions": ["float laws used: none"],
+    },
     "C03": {
         "modules": ["CambrianModel.Props.C03"],
-        "theorems": ["Cambrian.Props.C03_le", "Cambrian.Props.C03_zero", "Cambrian.Props.C03_starts_eq_pushed"],
+        "theorems": ["Cambrian.Props.C03_le", "Cambrian.Props.C03_zero", "Cambrian.Props.C03_starts_eq_pushed",
+                     "Cambrian.Props.C03_exact", "Cambrian.Props.C03_exact_report"],
         "correspondences": ["ctl"],
         "trusted": CTL_TRUST,
         "assumptions": ["float laws used: none"],
     },
     "C05": {
         "modules": ["CambrianModel.Props.C05"],
-        "theorems": ["Cambrian.Props.C05_le", "Cambrian.Props.C05_inflight_seeds_nodup"],
+        "theorems": ["Cambrian.Props.C05_le", "Cambrian.Props.C05_inflight_seeds_nodup", "Cambrian.Props.C05_exact"],
         "correspondences": ["ctl"],
         "trusted": CTL_TRUST,
         "assumptions": ["float laws used: none"],
